@@ -62,6 +62,7 @@ var Literals = map[string]Literal{
 	"null": {`null`, `null`, cty.NullVal(cty.DynamicPseudoType)},
 	"le":   {`[]`, `[]`, cty.EmptyTupleVal},
 	"lp":   {`["p", "q"]`, `["p", "q"]`, cty.TupleVal([]cty.Value{cty.StringVal("p"), cty.StringVal("q")})},
+	"ln":   {`[1]`, `[1]`, cty.TupleVal([]cty.Value{cty.NumberIntVal(1)})},
 	"lm":   {`["p", 1]`, `["p", 1]`, cty.TupleVal([]cty.Value{cty.StringVal("p"), cty.NumberIntVal(1)})},
 	"oe":   {`{}`, `{}`, cty.EmptyObjectVal},
 	"lo":   {`[{ k = 1 }]`, `[{"k": 1}]`, cty.TupleVal([]cty.Value{cty.ObjectVal(map[string]cty.Value{"k": cty.NumberIntVal(1)})})},
@@ -448,6 +449,8 @@ const (
 	TBool    = `"bool"`
 	TDynamic = `"dynamic"`
 	TListStr = `["list","string"]`
+	// partly dynamic: the element type is decided by the value
+	TListDyn = `["list","dynamic"]`
 	TMapNum  = `["map","number"]`
 	// object type with one optional attribute
 	TObject = `["object",{"k":"number","o":"string"},["o"]]`
